@@ -10,6 +10,7 @@ import (
 	"iter"
 	"sort"
 	"strings"
+	"sync"
 	"time"
 
 	bs "github.com/danthegoodman1/bloomsearch"
@@ -468,7 +469,9 @@ func runC10(c *ctx) {
 		cfg := bs.DefaultBloomSearchEngineConfig()
 		cfg.PartitionFunc = partitionFunc("p")
 		cfg.MaxBufferedTime = time.Hour
-		cfg.RowDataCompression = bs.CompressionNone
+		// the limits are about uncompressed bytes whatever the encoder buffers internally
+		cfg.RowDataCompression = pick(r, []bs.CompressionType{bs.CompressionNone, bs.CompressionSnappy, bs.CompressionZstd})
+		cfg.ZstdCompressionLevel = 1 + r.IntN(4)
 		cfg.MaxBufferedRows = 1 + r.IntN(8)
 		cfg.MaxBufferedBytes = pick(r, []int{60, 150, 400, 1 << 20})
 		cfg.MaxRowGroupRows = 1 + r.IntN(5)
@@ -653,6 +656,51 @@ func runC10(c *ctx) {
 		c.r.Note("time trigger: MaxBufferedTime=%v answered after %v (limit with slack %v)", mbt, took, limit)
 		if !ok {
 			c.r.Add(Finding{Kind: "violation", Check: "time-trigger", Detail: fmt.Sprintf("a lone batch was not answered within %v of MaxBufferedTime=%v (+100ms tick) without Flush/Stop; took %v in three attempts", limit, mbt, took), Replay: map[string]any{"MaxBufferedTime": mbt.String()}})
+		}
+	}
+	// ---- timing monitor 2: the age of the OLDEST buffered row counts - a trickle of later batches (each well
+	// inside MaxBufferedTime of the previous one, no size limit reached) must not postpone the first answer
+	for i := 0; i < 2*c.scale; i++ {
+		mbt := time.Duration(120+60*i) * time.Millisecond
+		limit := 4*(mbt+100*time.Millisecond) + 200*time.Millisecond
+		ok := false
+		var took time.Duration
+		for attempt := 0; attempt < 3 && !ok; attempt++ {
+			cfg := bs.DefaultBloomSearchEngineConfig()
+			cfg.MaxBufferedTime = mbt
+			env := NewEnv(cfg)
+			first := make(chan error, 1)
+			start := time.Now()
+			env.Eng.IngestRows(context.Background(), []map[string]any{{"_id": 1}}, first)
+			stopTrickle := make(chan struct{})
+			var wg sync.WaitGroup
+			wg.Add(1)
+			go func() {
+				defer wg.Done()
+				for k := 2; ; k++ {
+					select {
+					case <-stopTrickle:
+						return
+					case <-time.After(mbt / 5):
+						env.Eng.IngestRows(context.Background(), []map[string]any{{"_id": k}}, nil)
+					}
+				}
+			}()
+			select {
+			case <-first:
+				took = time.Since(start)
+				ok = took <= limit
+			case <-time.After(limit + time.Second):
+				took = limit + time.Second
+			}
+			close(stopTrickle)
+			wg.Wait()
+			env.Stop()
+		}
+		c.r.Case(true, fmt.Sprint("time-trigger-trickle", mbt))
+		c.r.Note("time trigger under a trickle: MaxBufferedTime=%v, a batch every %v, first batch answered after %v (limit with slack %v)", mbt, mbt/5, took, limit)
+		if !ok {
+			c.r.Add(Finding{Kind: "violation", Check: "time-trigger-trickle", Detail: fmt.Sprintf("with a batch arriving every %v the first batch was not answered within %v of MaxBufferedTime=%v; took %v in three attempts (the buffer's age must be measured from its oldest row)", mbt/5, limit, mbt, took), Replay: map[string]any{"MaxBufferedTime": mbt.String(), "trickle": (mbt / 5).String()}})
 		}
 	}
 }
